@@ -5,3 +5,5 @@ package workerpool
 func verifSubmitWindow(*WorkerPool) {}
 
 func verifStartWindow(*WorkerPool) {}
+
+func verifHasWorkGap(*WorkerPool) bool { return false }
